@@ -43,4 +43,13 @@ def lowerCovers (exts : List (List Nat)) (i : Nat) : List Nat :=
       let ek := exts.getD k []
       ssubset ej ek && ssubset ek ei)
 
+/-- upper covers of concept `i` within a list of extents -/
+def upperCovers (exts : List (List Nat)) (i : Nat) : List Nat :=
+  let ei := exts.getD i []
+  (List.range exts.length).filter fun j =>
+    let ej := exts.getD j []
+    ssubset ei ej && !((List.range exts.length).any fun k =>
+      let ek := exts.getD k []
+      ssubset ei ek && ssubset ek ej)
+
 end Fca.Spec
